@@ -52,7 +52,9 @@ def run(ck):
                 t = "@org %d\n%s\nendl:\n%s\n" % (start, stmt, trailer)
             progs.append((arch, t)); meta.append((start, L))
     # @align near the top
-    for a, start in [(2, 0xFFFF), (4, 0xFFFD), (256, 0xFF01), (4096, 0xF001), (3, 0xFFFF), (7, 0xFFFE), (65536, 1), (65535, 2), (70000, 5)]:
+    for a, start in [(2, 0xFFFF), (4, 0xFFFD), (256, 0xFF01), (4096, 0xF001), (3, 0xFFFF), (7, 0xFFFE), (65536, 1), (65535, 2), (70000, 5),
+                     (0x20000, 1), (0x20000, 0), (0x40000, 0x1234), (0x10000, 0x8001), (0x10000, 0), (0x8000, 0x8001), (0x100000, 0xFFFF),
+                     (0x20000, 0xFFFF), (0x10001, 1), (0x1FFFF, 0x8000)]:
         pad = (a - start % a) % a
         for seg in ("", '@segment "ADDR"\n'):
             progs.append(("z80", "%s@org %d\n@align %d\nendl:\n" % (seg, start, a))); meta.append((start, pad))
